@@ -1366,6 +1366,7 @@ pub struct AddFont {
     old_font_page: usize,
     new_font_page: usize,
     font: BitFont,
+    replaced_font: Option<BitFont>,
 }
 
 impl AddFont {
@@ -1374,6 +1375,7 @@ impl AddFont {
             old_font_page,
             new_font_page,
             font,
+            replaced_font: None,
         }
     }
 }
@@ -1385,11 +1387,15 @@ impl UndoOperation for AddFont {
 
     fn undo(&mut self, edit_state: &mut EditState) -> EngineResult<()> {
         edit_state.buffer.remove_font(self.new_font_page);
+        if let Some(font) = self.replaced_font.take() {
+            edit_state.buffer.set_font(self.new_font_page, font);
+        }
         edit_state.caret.set_font_page(self.old_font_page);
         Ok(())
     }
 
     fn redo(&mut self, edit_state: &mut EditState) -> EngineResult<()> {
+        self.replaced_font = edit_state.buffer.remove_font(self.new_font_page);
         edit_state.buffer.set_font(self.new_font_page, self.font.clone());
         edit_state.caret.set_font_page(self.new_font_page);
         Ok(())
